@@ -924,3 +924,38 @@ def _show_poly(ctx, p, maxterms=12):
     if len(items) > maxterms:
         s += " + ...(%d terms)" % len(items)
     return s
+
+
+
+def radical_rewrite(ctx, r, bases):
+    """rewrite every sqrt atom of r whose argument is (constant) * product of powers of the given
+    base polynomials as the same product of the bases' own square roots.
+    bases: [(polynomial Rat b, Rat standing for sqrt(b))]; each must be positive on the domain
+    of interest (stated by the caller as an assumption).  Atoms that do not factor are left."""
+    one = ctx.const(1)
+    mapping = {}
+    for a in r.all_atoms():
+        if a.fname != "sqrt":
+            continue
+        arg = a.args[0]
+        rep = one
+        ok = True
+        for part, sign in ((Rat(ctx, arg.num, one.num, False), 1), (Rat(ctx, arg.den, one.num, False), -1)):
+            cur = part
+            for b, sb in bases:
+                while True:
+                    q = cur / b
+                    if len(q.den) == 1 and next(iter(q.den)) == ():
+                        cur = q
+                        rep = rep * (sb if sign > 0 else 1 / sb)
+                    else:
+                        break
+            c = cur.as_const()
+            if c is None or c <= 0:
+                ok = False
+                break
+            if c != 1:
+                rep = rep * (ctx.call("sqrt", ctx.const(c)) if sign > 0 else 1 / ctx.call("sqrt", ctx.const(c)))
+        if ok:
+            mapping[a] = rep
+    return r.subs(mapping) if mapping else r
